@@ -164,6 +164,27 @@ def check(rep, an, tier):
                     rep.check("R-QTY", "constraint compares like units", l.unit == r.unit or "POLY" in (l.unit, r.unit), where=F.where_po(po),
                               construct=norm_text(c.tag("node"))[:70], entry=entry, config=res.config,
                               msg=f"[{ustr(l.unit)}] is bounded by [{ustr(r.unit)}]: after a change of capture units the bound allows a different error")
+    # the weighted (q, r) selection: both penalties are of the same degree in the intensities (q·‖x‖₁ + r·‖x‖₂), otherwise the selected
+    # solution of the twin problem is not the rescaled solution
+    from ..values import Val as _Val
+    qv, rv = num("q", ONE, sign="POS"), num("r", ONE, sign="POS")
+    idcs = arr("idcs", S("SEL"), ONE)
+    idcs.tags["indices"] = True
+    for lab8, optv in (("((q, r), sources)", _Val(items=[_Val(items=[qv, rv], tags={"kind": "tuple", "notnone": True, "notstr": True},
+                                                           data=frozenset({"q", "r"})), idcs],
+                                                  tags={"kind": "tuple", "notnone": True, "notstr": True}, data=frozenset({"q", "r", "idcs"}))),):
+        res = C08.run(an, optv, dict(d8, K=None))
+        res.config = f"underdetermined, opt={lab8}"
+        entry = "lsq_linear_underdetermined"
+        F.qty(rep, res, entry, subs=("mismatch", "literal"))
+        for po, obj, cons in F.final_problems(res):
+            for at, v, ops in R.walk_atoms(obj):
+                if at in ("add", "sub") and len(ops) == 2 and isinstance(ops[0].unit, dict) and isinstance(ops[1].unit, dict):
+                    node = v.tag("node")
+                    rep.check("R-QTY", "penalties of the weighted selection have the same degree", ops[0].unit == ops[1].unit, where=F.where_po(po),
+                              construct=norm_text(node)[:80] if node is not None else at, entry=entry, config=res.config,
+                              msg=f"a term in [{ustr(ops[0].unit)}] is added to a term in [{ustr(ops[1].unit)}]: after a change of the intensity "
+                                  f"unit the two penalties are traded off differently, so the selected solution is not the rescaled one")
     # the capture matrix carries the intensity unit of the source spectra: no self-normalisation of the sources on any registration path
     from . import domains as D
     from .C19 import est_fields
@@ -186,6 +207,28 @@ def check(rep, an, tier):
         if not sq:
             rep.holds("R-QTY", "the capture matrix scales with the source spectra", where=res.fn.loc(), construct="sources → A", 
                       entry="ReceptorEstimator.register_system", config=res.config)
+    # the default variance model computed from a registered filter uncertainty is a VARIANCE of captures: of degree two in the source
+    # spectra (and in the filters) wherever the capture matrix is of degree one
+    for unc in ("given", "samples"):
+        fields = estimator_fields(K="vec", baseline="vec", uncertainty="given")
+        if unc == "samples":
+            fields["filters_uncertainty"] = arr("self.filters_uncertainty", S("U", "F", "D"), {"phi": 1})
+        for k in ("A", "Epsilon", "sources", "sources_domain", "lb", "ub", "sources_labels"):
+            fields.pop(k, None)
+        kw = dict(sources=arr("sources", S("SRC", "D"), U_SIGNAL), domain=none(), lb=none(), ub=none(), labels=none(), Epsilon=none())
+        res = an.run(f"{CC.EST}.register_system", kws=kw, self_fields=fields, config=f"register_system,uncertainty={unc}")
+        st = {a: [e for e in res.events("self_store") if e.d["attr"] == a and e.d.get("val") is not None] for a in ("A", "Epsilon")}
+        ua = st["A"][-1].d["val"].flat().unit if st["A"] else None
+        ue = st["Epsilon"][-1].d["val"].flat().unit if st["Epsilon"] else None
+        ok = None
+        if isinstance(ua, dict) and isinstance(ue, dict):
+            ok = all(ue.get(k, 0) == 2 * ua.get(k, 0) for k in ("iota", "phi"))
+        ev = st["Epsilon"][-1] if st["Epsilon"] else None
+        rep.check("R-QTY", "the variance model is of degree two in the source spectra", ok, where=ev.loc if ev else res.fn.loc(),
+                  construct=ev.text()[:80] if ev else "self.Epsilon = …", entry="ReceptorEstimator.register_system", config=res.config,
+                  msg=f"A is in [{ustr(ua) if isinstance(ua, dict) else ua}] but Epsilon in [{ustr(ue) if isinstance(ue, dict) else ue}]: a variance of captures "
+                      f"scales with the SQUARE of the intensity unit of the spectra, so the predicted capture variance of the twin problem is off "
+                      f"by the unit factor")
     # variance minimisation with a requested total: the window around the total is an INTENSITY tolerance
     from . import C09
     d9 = {n: C09.AXES[n][0][0] for n in C09.AXES}
